@@ -626,17 +626,292 @@ Theorem scapy_view_many known it1 it2 items :
   scapy_view known (encode_exts (it1 :: it2 :: items)) = [XRaw (encode_exts (it1 :: it2 :: items))].
 Proof.
   intros W. inversion W as [|? ? W1 W']; subst. inversion W' as [|? ? W2 _]; subst.
-  pose proof (ext_encode_length known it1 W1) as L1.
   pose proof (ext_encode_length known it2 W2) as L2.
   destruct W1 as (Hf & Ht & Hl & Hv & Hk).
-  unfold scapy_view.
-  rewrite scapy_exts_S
-    by (apply len5_nonempty; unfold encode_exts; cbn [map concat]; rewrite app_length; lia).
-  unfold encode_exts. cbn [map concat].
+  unfold scapy_view, encode_exts. cbn [map concat].
+  set (tail := encode_ext it2 ++ concat (map encode_ext items)).
+  assert (LT : (5 <= length tail)%nat) by (unfold tail; rewrite app_length; lia).
+  clearbody tail.
   destruct it1 as [fl ty val]. cbn [ei_flags ei_type ei_val] in *.
-  unfold encode_ext at 1 3 5. cbn [ei_flags ei_type ei_val]. rewrite <- !app_assoc.
+  unfold encode_ext. cbn [ei_flags ei_type ei_val]. rewrite <- !app_assoc.
+  rewrite scapy_exts_S by (apply len5_nonempty; rewrite !app_length, !be_length; lia).
   rewrite tb1 by exact Hf. rewrite tb2 by exact Ht. rewrite tb2 by exact Hl.
-  destruct (N.eqb_spec (N.of_nat (length (val ++ encode_ext it2 ++ concat (map encode_ext items)))) (N.of_nat (length val))) as [E|_];
-    [|reflexivity].
-  rewrite !app_length in E. lia.
+  destruct (N.eqb_spec (N.of_nat (length (val ++ tail))) (N.of_nat (length val))) as [E|_]; [|reflexivity].
+  rewrite app_length in E. lia.
 Qed.
+
+(** * The receive loop over [parse_frame]: instances of Proofs/FrameProofs.v *)
+From DTN Require Import Proofs.FrameProofs.
+
+Lemma rx_loop_eq St phase handle : forall fuel s buf,
+  rx_loop St phase handle fuel s buf = loop N St frame phase parse_frame handle fuel s buf.
+Proof. reflexivity. Qed.
+
+Lemma rx_recv_eq St phase handle : forall st c,
+  rx_recv St phase handle st c = recv N St frame phase parse_frame handle st c.
+Proof. reflexivity. Qed.
+
+(** The frame sequence is legal for the handler: each frame is well-formed and
+    is what the phase the handler is in expects (contact header first, then
+    messages, for a handler that sets [_in_conn] on the contact header). *)
+Section RxConsistent.
+  Variable St : Type.
+  Variable phase : St -> bool.
+  Variable handle : St -> frame -> St.
+  Fixpoint rx_consistent (s : St) (fs : list frame) : Prop :=
+    match fs with
+    | [] => True
+    | f :: fs' => accepts (phase s) f /\ rx_consistent (handle s f) fs'
+    end.
+End RxConsistent.
+
+Section Inst.
+  Variable St : Type.
+  Variable phase : St -> bool.
+  Variable handle : St -> frame -> St.
+  Notation rcv := (rx_recv St phase handle).
+
+  Theorem rx_recv_recv : forall st c1 c2, rcv (rcv st c1) c2 = rcv st (c1 ++ c2).
+  Proof. exact (recv_recv N St frame phase parse_frame handle frame_parse_shrinks frame_parse_app). Qed.
+
+  Theorem rx_split_invariance : forall chunks c st,
+    fold_left rcv chunks (rcv st c) = rcv st (c ++ concat chunks).
+  Proof. exact (split_invariance N St frame phase parse_frame handle frame_parse_shrinks frame_parse_app). Qed.
+
+  Lemma rx_recv_empty : forall s, rcv (s, []) [] = (s, []).
+  Proof. reflexivity. Qed.
+
+  Theorem rx_stream_only : forall chunks1 chunks2 s,
+    concat chunks1 = concat chunks2 ->
+    fold_left rcv chunks1 (s, []) = fold_left rcv chunks2 (s, []).
+  Proof.
+    intros chunks1 chunks2 s E. rewrite <- (rx_recv_empty s).
+    exact (split_invariance_any N St frame phase parse_frame handle frame_parse_shrinks frame_parse_app
+             chunks1 chunks2 (s, []) E).
+  Qed.
+
+  Theorem rx_stream : forall fs s,
+    rx_consistent St phase handle s fs ->
+    rcv (s, []) (concat (map encode_frame fs)) = (fold_left handle fs s, []).
+  Proof.
+    exact (stream_theorem N St frame phase parse_frame handle frame_parse_shrinks
+             encode_frame accepts frame_parse_encode).
+  Qed.
+
+  Theorem rx_stream_cut : forall fs1 f fs2 s q q',
+    rx_consistent St phase handle s (fs1 ++ f :: fs2) -> encode_frame f = q ++ q' -> q' <> [] ->
+    rcv (s, []) (concat (map encode_frame fs1) ++ q) = (fold_left handle fs1 s, q).
+  Proof.
+    exact (stream_cut N St frame phase parse_frame handle frame_parse_shrinks frame_parse_app
+             encode_frame accepts frame_parse_encode frame_prefix).
+  Qed.
+
+  Theorem rx_stream_any_cut : forall fs1 f fs2 s q q' chunks,
+    rx_consistent St phase handle s (fs1 ++ f :: fs2) -> encode_frame f = q ++ q' -> q' <> [] ->
+    concat chunks = concat (map encode_frame fs1) ++ q ->
+    fold_left rcv chunks (s, []) = (fold_left handle fs1 s, q).
+  Proof.
+    intros fs1 f fs2 s q q' chunks C E NE EC. rewrite <- (rx_recv_empty s).
+    exact (stream_any_cut N St frame phase parse_frame handle frame_parse_shrinks frame_parse_app
+             encode_frame accepts frame_parse_encode frame_prefix fs1 f fs2 s q q' chunks C E NE EC).
+  Qed.
+
+  Theorem rx_stream_any_cut_all : forall fs s chunks,
+    rx_consistent St phase handle s fs -> concat chunks = concat (map encode_frame fs) ->
+    fold_left rcv chunks (s, []) = (fold_left handle fs s, []).
+  Proof.
+    intros fs s chunks C EC. rewrite <- (rx_recv_empty s).
+    exact (stream_any_cut_all N St frame phase parse_frame handle frame_parse_shrinks frame_parse_app
+             encode_frame accepts frame_parse_encode fs s chunks C EC).
+  Qed.
+
+  (** The final octets of a frame arrive: it is acted on in that very read. *)
+  Theorem rx_complete_acted_on : forall s f p q,
+    accepts (phase s) f -> encode_frame f = p ++ q ->
+    rcv (s, p) q = (handle s f, []).
+  Proof.
+    intros s f p q A E.
+    change (rcv (s, p) q) with (rcv (s, []) (p ++ q)). rewrite <- E.
+    pose proof (rx_stream [f] s (conj A I)) as R. cbn [map concat fold_left] in R.
+    rewrite app_nil_r in R. exact R.
+  Qed.
+
+  (** Any strict prefix of a frame is left untouched in the buffer, whatever
+      way it arrives. *)
+  Theorem rx_prefix_untouched : forall s f p q,
+    accepts (phase s) f -> encode_frame f = p ++ q -> q <> [] ->
+    rcv (s, []) p = (s, p).
+  Proof.
+    intros s f p q A E NE.
+    exact (rx_stream_cut [] f [] s p q (conj A I) E NE).
+  Qed.
+End Inst.
+
+(** The logging handler. *)
+Lemma log_fold : forall fs b lg, fs <> [] -> fold_left log_handle fs (b, lg) = (true, lg ++ fs).
+Proof.
+  induction fs as [|f fs IH]; intros b lg NE; [congruence|].
+  cbn [fold_left]. unfold log_handle at 2. cbn [snd].
+  destruct fs as [|g fs]; [reflexivity|].
+  rewrite IH by discriminate. rewrite <- app_assoc. reflexivity.
+Qed.
+
+Lemma log_consistent_msgs : forall ms lg,
+  Forall wf_msg ms -> rx_consistent log_state log_phase log_handle (true, lg) (map FMsg ms).
+Proof.
+  induction ms as [|m ms IH]; intros lg W; cbn [map rx_consistent]; [exact I|].
+  inversion W; subst. split; [split; [assumption|reflexivity]|]. apply IH. assumption.
+Qed.
+
+Lemma log_consistent : forall c ms,
+  wf_contact c -> Forall wf_msg ms ->
+  rx_consistent log_state log_phase log_handle (false, []) (FContact c :: map FMsg ms).
+Proof.
+  intros c ms Wc Wm. cbn [rx_consistent]. split; [split; [exact Wc|reflexivity]|].
+  apply log_consistent_msgs. exact Wm.
+Qed.
+
+Theorem rx_log_stream : forall c ms,
+  wf_contact c -> Forall wf_msg ms ->
+  rx_log_recv rx_init (concat (map encode_frame (FContact c :: map FMsg ms)))
+  = ((true, FContact c :: map FMsg ms), []).
+Proof.
+  intros c ms Wc Wm.
+  pose proof (rx_stream log_state log_phase log_handle _ _ (log_consistent c ms Wc Wm)) as R.
+  rewrite log_fold in R by discriminate. exact R.
+Qed.
+
+Lemma rx_consistent_app St phase handle : forall fs1 fs2 s,
+  rx_consistent St phase handle s (fs1 ++ fs2) -> rx_consistent St phase handle s fs1.
+Proof.
+  induction fs1 as [|f fs1 IH]; intros fs2 s C; cbn [app rx_consistent] in *; [exact I|].
+  destruct C as [A C]. split; [exact A|]. eapply IH. exact C.
+Qed.
+
+(** Any way of cutting any prefix of a well-formed stream into reads: exactly
+    the frames whose final octet has arrived have been acted on, in order, and
+    the octets of the next, incomplete one are kept. *)
+Theorem rx_log_any_cut : forall c ms fs1 f fs2 q q' chunks,
+  wf_contact c -> Forall wf_msg ms ->
+  FContact c :: map FMsg ms = fs1 ++ f :: fs2 ->
+  encode_frame f = q ++ q' -> q' <> [] ->
+  concat chunks = concat (map encode_frame fs1) ++ q ->
+  fold_left rx_log_recv chunks rx_init
+  = ((match fs1 with [] => false | _ => true end, fs1), q).
+Proof.
+  intros c ms fs1 f fs2 q q' chunks Wc Wm EF E NE EC.
+  pose proof (log_consistent c ms Wc Wm) as C. rewrite EF in C.
+  pose proof (rx_stream_any_cut log_state log_phase log_handle fs1 f fs2 (false, []) q q' chunks C E NE EC) as R.
+  destruct fs1 as [|g fs1]; [exact R|]. rewrite log_fold in R by discriminate. exact R.
+Qed.
+
+Theorem rx_log_any_cut_all : forall c ms chunks,
+  wf_contact c -> Forall wf_msg ms ->
+  concat chunks = concat (map encode_frame (FContact c :: map FMsg ms)) ->
+  fold_left rx_log_recv chunks rx_init = ((true, FContact c :: map FMsg ms), []).
+Proof.
+  intros c ms chunks Wc Wm EC.
+  pose proof (rx_stream_any_cut_all log_state log_phase log_handle _ (false, []) chunks (log_consistent c ms Wc Wm) EC) as R.
+  rewrite log_fold in R by discriminate. exact R.
+Qed.
+
+(** The log only grows: frames already acted on are never revised. *)
+Theorem rx_log_mono : forall st c, exists more,
+  snd (fst (rx_log_recv st c)) = snd (fst st) ++ more.
+Proof.
+  assert (G : forall fuel b lg buf, exists more,
+            snd (fst (rx_loop log_state log_phase log_handle fuel (b, lg) buf)) = lg ++ more).
+  { induction fuel as [|fuel IH]; intros b lg buf; cbn [rx_loop].
+    - exists []. rewrite app_nil_r. reflexivity.
+    - destruct buf as [|x buf]; [exists []; rewrite app_nil_r; reflexivity|].
+      destruct (parse_frame (log_phase (b, lg)) (x :: buf)) as [[f r]|]; [|exists []; rewrite app_nil_r; reflexivity].
+      change (log_handle (b, lg) f) with (true, lg ++ [f]).
+      destruct (IH true (lg ++ [f]) r) as [more E]. exists (f :: more). rewrite E, <- app_assoc. reflexivity. }
+  intros [[b lg] buf] c. unfold rx_log_recv, rx_recv. cbn [fst snd]. apply G.
+Qed.
+
+(** Boolean reflection of well-formedness (for the concrete examples). *)
+Lemma wf_msgb_wf : forall m, wf_msgb m = true -> wf_msg m.
+Proof.
+  intros m H. destruct m; cbn [wf_msgb wf_msg] in *; unfold wf_regionb, wf_region in *;
+    repeat match goal with
+    | H : _ && _ = true |- _ => apply andb_true_iff in H; destruct H
+    end;
+    repeat match goal with
+    | H : (_ <? _) = true |- _ => apply N.ltb_lt in H
+    | H : wf_bytesb _ = true |- _ => apply wf_bytesb_spec in H
+    end; repeat split; try assumption.
+  intros HS. match goal with H : has_start _ || _ = true |- _ => rewrite HS in H; cbn [orb] in H end.
+  destruct ext; [reflexivity|discriminate].
+Qed.
+
+Lemma wf_extb_wf known e : wf_extb known e = true -> wf_ext known e.
+Proof.
+  unfold wf_extb, wf_ext. intros H.
+  repeat match goal with
+  | H : _ && _ = true |- _ => apply andb_true_iff in H; destruct H
+  end;
+  repeat match goal with
+  | H : (_ <? _) = true |- _ => apply N.ltb_lt in H
+  | H : wf_bytesb _ = true |- _ => apply wf_bytesb_spec in H
+  end; repeat split; assumption.
+Qed.
+
+Lemma wf_exts_forallb known items : forallb (wf_extb known) items = true -> Forall (wf_ext known) items.
+Proof.
+  intros H. apply Forall_forall. intros e He. apply wf_extb_wf.
+  rewrite forallb_forall in H. apply H. exact He.
+Qed.
+
+Lemma wf_msgs_forallb ms : forallb wf_msgb ms = true -> Forall wf_msg ms.
+Proof.
+  intros H. apply Forall_forall. intros e He. apply wf_msgb_wf.
+  rewrite forallb_forall in H. apply H. exact He.
+Qed.
+
+(** Item-level statements in the shape used by Props/C07.v *)
+Theorem scapy_view_le1 known items :
+  Forall (wf_ext known) items -> (length items <= 1)%nat ->
+  scapy_view known (encode_exts items) = map item_view items.
+Proof.
+  intros W L. destruct items as [|it [|it2 items]].
+  - reflexivity.
+  - inversion W; subst. rewrite scapy_view_single by assumption. reflexivity.
+  - cbn [length] in L. lia.
+Qed.
+
+Theorem scapy_view_ge2 known items :
+  Forall (wf_ext known) items -> (2 <= length items)%nat ->
+  scapy_view known (encode_exts items) = [XRaw (encode_exts items)].
+Proof.
+  intros W L. destruct items as [|it [|it2 items]]; cbn [length] in L; try lia.
+  apply scapy_view_many. exact W.
+Qed.
+
+(** The witness: private dummy (0xFF, 10 octets) + Transfer Length (0x01, 8
+    octets), the two items the implementation itself puts on a START segment
+    when enable_test contains private_extensions. *)
+Theorem scapy_exts_refuted :
+  exists items : list extitem,
+    Forall (wf_ext xfer_ext_len) items
+    /\ scapy_view xfer_ext_len (encode_exts items) <> map item_view items.
+Proof.
+  exists [mkExt 1 255 [0;0;0;0;0;0;0;0;0;0]; mkExt 0 1 [0;0;0;0;0;0;0;2]]. split.
+  - apply wf_exts_forallb. reflexivity.
+  - vm_compute. discriminate.
+Qed.
+
+(** One message of every type, for the non-vacuity examples of Props/C07.v:
+    SESS_INIT with a node id and the private session extension item, a START
+    segment carrying the Transfer Length item, a zero-length END segment, a
+    zero-length START|END segment, and the five fixed-size messages. *)
+Definition example_msgs : list msg :=
+  [ MSessInit 30 65536 1048576 [100;116;110;58;47;47;97;47] (encode_exts [mkExt 1 255 [0;0;0;0;0;0;0;1;0;2]]);
+    MXferSeg 2 1 (encode_exts [mkExt 1 1 [0;0;0;0;0;0;0;3]]) [1;2;3];
+    MXferSeg 1 1 [] [];
+    MXferSeg 3 2 [] [];
+    MXferAck 1 1 3;
+    MXferRefuse 2 5;
+    MKeepalive;
+    MReject 9 1;
+    MSessTerm 1 3 ].
